@@ -668,6 +668,11 @@ func (e *bEnv) inspect(bundle *sourcebundle.Bundle) {
 	for _, p := range bundle.RemotePackages() {
 		n := pkgName(p)
 		obs.Pkgs = append(obs.Pkgs, bPkg{P: n, Dir: content[n], Meta: bundle.RemotePackageMeta(p) != nil})
+		for _, f := range c.World.Fetch {
+			if f.P == n && f.Meta != (bundle.RemotePackageMeta(p) != nil) {
+				obs.LookupBad = append(obs.LookupBad, fmt.Sprintf("metadata of %s: supplied by the fetcher=%v, retrievable=%v", n, f.Meta, !f.Meta))
+			}
+		}
 		if m := bundle.RemotePackageMeta(p); m != nil && (m.GitCommitID() != "commit-of-"+n || m.GitCommitMessage() != "message of "+n) {
 			obs.LookupBad = append(obs.LookupBad, "meta of "+n+" changed")
 		}
@@ -924,6 +929,27 @@ func builderMain() int {
 					obs.ReopenDiff = append(obs.ReopenDiff, "re-open fails: "+rerr.Error())
 				} else {
 					obs.ReopenDiff = bundleDiff(e, bundle, re, e.dir, e.dir, false)
+				}
+				// the same directory named by a path relative to the working directory
+				if cwd, cerr := os.Getwd(); cerr == nil {
+					if relDir, rerr := filepath.Rel(cwd, e.dir); rerr == nil {
+						if re2, rerr2 := sourcebundle.OpenDir(relDir); rerr2 != nil {
+							obs.ReopenDiff = append(obs.ReopenDiff, "re-open by relative path fails: "+rerr2.Error())
+						} else {
+							for _, d := range bundleDiff(e, bundle, re2, e.dir, e.dir, false) {
+								obs.ReopenDiff = append(obs.ReopenDiff, "by relative path: "+d)
+							}
+							for _, n := range c.NeedRem {
+								p1, e1 := bundle.LocalPathForRemoteSource(g.remote(bSrc{K: "rem", Pkg: n.Pkg, Sub: n.Sub}))
+								if e1 != nil {
+									continue
+								}
+								if _, e2 := re2.SourceForLocalPath(p1); e2 != nil {
+									obs.ReopenDiff = append(obs.ReopenDiff, "by relative path: reverse lookup fails: "+e2.Error())
+								}
+							}
+						}
+					}
 				}
 				var buf bytes.Buffer
 				if werr := bundle.WriteArchive(&buf); werr != nil {
